@@ -248,6 +248,7 @@ pub enum Op {
     EgDkFromShares,    // [eshare..] -> [edk]
     EgDkDecrypt,       // [edk, ect] -> [point]
     EgVerifyRaw,       // [pk, generator(empty = default), c1, c2, mp, bp, ch] -> []   trait-level BlsElGamal::verify_proof
+    AggVerifyTrait,    // [iterator kind(1): 0 vec / 1 filter / 2 from_fn / 3 chain / 4 flat_map, aggsig, (pk, msg)...] -> []  the scheme traits' aggregate_verify with iterators whose size_hint differs
     VerifyUnchecked,   // [kind(1): 0 Signature / 1 MultiSignature vs MultiPublicKey / 2 ProofOfPossession, sig (tag+point, or bare point for 2), pk point, msg] -> []  values built through the PUBLIC enum / tuple constructors from on-curve points WITHOUT the subgroup check
     MsgGenerator,      // [] -> [point]
     Dsts,              // [] -> [basic, aug, pop_sig, pop_pop, elgamal_enc]
